@@ -621,3 +621,13 @@ def run(model, col, tier):
         if ob.rule in ("R03.1", "R03.2"):
             ob.rule = "R01.7"
             col.obligations.append(ob)
+    # comparisons yield int 0/1: exactly the six comparison operations are typed as comparisons (= R09.1; the typing decides
+    # whether a following division is the integer one)
+    from . import c09 as _c09
+
+    sub = Collector("C09")
+    _c09.run(model, sub, "quick")
+    for ob in sub.obligations:
+        if ob.rule == "R09.1":
+            ob.rule = "R01.5"
+            col.obligations.append(ob)
